@@ -4,7 +4,7 @@
    C09 as a whole ("for every room in the envelope the pipeline returns the truth within 1 mm / 1 mrad, unlinked
    systems raise") depends on IPPE (SVD), the mirror vote, an eigen-decomposition and scipy.least_squares; none of
    these has a Gallina model here.  Shape of the full statement, over an arbitrary pipeline function: *)
-From CF Require Import Common.Bytes C09.Model C09.Proofs_matcher C09.Proofs_link C09.Proofs_est C09.Gen_Matcher C09.GenTie C09.Vote C09.Proofs_vote C09.Pure C09.Proofs_pure C09.Decide C09.Proofs_decide C09.Container C09.Proofs_container.
+From CF Require Import Common.Bytes C09.Model C09.Proofs_matcher C09.Proofs_link C09.Proofs_est C09.Gen_Matcher C09.GenTie C09.Vote C09.Proofs_vote C09.Pure C09.Proofs_pure C09.Decide C09.Proofs_decide C09.Container C09.Proofs_container C09.PairKey C09.Proofs_pairkey.
 Open Scope Z_scope.
 
 Definition C09_full {Room Answer : Type} (in_envelope linked : Room -> Prop) (pipeline : Room -> option Answer)
@@ -308,3 +308,31 @@ Theorem C09_pair_count_threshold_refuted :
   forallb is_some (tl (decide_thr dist_cm Z.ltb 80 50 10000000 mean_cm (fun a b => b - a) 0 2 cfg_sparse)) = true.
 Proof. exact pair_threshold_refuted. Qed.
 Print Assumptions C09_pair_count_threshold_refuted.
+
+(* ---- Wave 15: "any base-station ids".  The per-pair aggregates (position_permutations, bs_positions) are keyed by the
+        PAIR; ids are unbounded integers.  (1) In the estimator model the candidate lists voted on for (i, j) are exactly
+        those of the samples that see both i and j -- nothing of another pair, for any ids.  (2) Any injective key gives
+        every pair exactly its own entries.  (3) Refuted for the packed key (bs1 << 4) | bs2: (2, 19) and (3, 19) both
+        map to 51 and their entries are pooled. *)
+Theorem C09_pair_lists_are_own_partial :
+  forall (P G : Type) (rel : G -> G -> P) (ss : list (@dsample G)) (i j : Z) (cl : list P),
+    In cl (pair_lists rel ss i j) <->
+    exists s, In s ss /\ In i (keys s) /\ In j (keys s) /\ cl = cands rel s i j.
+Proof. exact (@pair_lists_own). Qed.
+Print Assumptions C09_pair_lists_are_own_partial.
+
+Theorem C09_pair_aggregates_do_not_mix_partial :
+  forall (K V : Type) (key : pair_id -> K) (keq : K -> K -> bool),
+    (forall a b, keq a b = true <-> a = b) -> (forall p q, key p = key q -> p = q) ->
+    forall (entries : list (pair_id * V)) (p : pair_id), aggregate key keq entries p = own entries p.
+Proof. exact (@aggregate_injective). Qed.
+Print Assumptions C09_pair_aggregates_do_not_mix_partial.
+
+Theorem C09_packed_pair_key_refuted :
+  key16 (2, 19) = 51 /\ key16 (3, 19) = 51 /\ (2, 19) <> (3, 19) /\
+  exists entries : list (pair_id * Z),
+    aggregate key16 Z.eqb entries (2, 19) <> own entries (2, 19) /\
+    aggregate key16 Z.eqb entries (3, 19) <> own entries (3, 19) /\
+    aggregate (fun q => q) pair_eqb entries (2, 19) = own entries (2, 19).
+Proof. exact key16_refuted. Qed.
+Print Assumptions C09_packed_pair_key_refuted.
